@@ -84,6 +84,11 @@ def check_c16(prog, rep, tier, cfg):
     c16d(prog, rep)
     c16e(prog, rep)
     c16f(prog, rep)
+    # C16.h — `cannot be decoded` is the decoder's own verdict: the text that is formatted and the malformed flag both come from one
+    # call of encoding_rs on the bytes after the BOM, and the flag leads to the error (shared with C17.a / C17.b)
+    from engine import AliasReport
+    c17a(prog, AliasReport(rep, [("C17.a", r".", "C16.h")]))
+    c17b(prog, AliasReport(rep, [("C17.b", r".", "C16.h")]))
 
 
 def effect_sites(prog):
